@@ -65,7 +65,14 @@ Fixpoint gate_line (toks : list string) (acc : list string) : option string :=
   end.
 
 Definition dispatch (kind : string) (args : list string) : string :=
-  if String.eqb kind "p" then
+  if String.eqb kind "consts" then
+    match args with
+    | [n] => if String.eqb n "statslen" then out3 (dec_of_N stats_len) "-" "-" else BADARGS
+    | _ => BADARGS
+    end
+  else if String.eqb kind "p" || String.eqb kind "pt" then
+    (* pt: the same frame parsed a second time on the same session (its source tracked by then): the result of Parse
+       does not depend on the host table, so the model answers as for p *)
     match args with
     | [hm; rm; lan; bits; fr; sp] =>
         match cfg_of_toks hm rm lan bits, bytes_of_tok fr, bytes_of_tok sp with
